@@ -13,7 +13,8 @@ package main
 // The loop runs on the real code with its three environment seams owned by the
 // harness: getppid (the parent process at this moment), the token ping (held
 // until the harness answers) and the ticker / check deadline (virtual). Every
-// history over {ping answers ok | error | no answer before the deadline,
+// history over {ping answers ok | error | gives up when the deadline passes | does not
+// return at all,
 // parent replaced by pid 1, parent replaced by another process (a subreaper)}
 // up to the depth bound is replayed on a fresh loop, for a server that is an
 // ordinary process and for a server that is pid 1 itself.
@@ -39,7 +40,9 @@ import (
 
 const subreaperPid = 777
 
-var workerEvents = []string{"ok", "error", "timeout", "parent-becomes-1", "parent-becomes-subreaper"}
+// "timeout": the ping returns the context's error when the check deadline passes; "hang": the ping does
+// not return at all (a PKCS#11 call stuck in the driver does not look at its context)
+var workerEvents = []string{"ok", "error", "timeout", "hang", "parent-becomes-1", "parent-becomes-subreaper"}
 
 type workerLoop struct {
 	p0       int
@@ -50,6 +53,7 @@ type workerLoop struct {
 	returned chan struct{}
 	mu       sync.Mutex
 	lastCtx  *vcontext.VCtx
+	hang     atomic.Bool // the outstanding ping ignores its context
 }
 
 func startWorkerLoop(p0 int) *workerLoop {
@@ -74,6 +78,14 @@ func startWorkerLoop(p0 int) *workerLoop {
 		case err := <-r.reply:
 			return err
 		case <-ctx.Done():
+			if w.hang.Load() {
+				select {
+				case err := <-r.reply:
+					return err
+				case <-w.done:
+					return nil
+				}
+			}
 			return ctx.Err()
 		case <-w.done:
 			return nil
@@ -112,7 +124,14 @@ func (w *workerLoop) next(r *pingReq) string {
 			return "shutdown-without-return"
 		}
 	case <-w.returned:
-		return "returned-without-shutdown"
+		// the loop calls shutdown before it returns: when both have happened by the time this select
+		// runs (a loaded machine), either case may be taken - look for the shutdown before judging
+		select {
+		case <-w.shutdown:
+			return "shutdown"
+		default:
+			return "returned-without-shutdown"
+		}
 	case <-time.After(20 * time.Second):
 		return "stalled"
 	}
@@ -161,7 +180,10 @@ func runWorkerHistory(p0 int, hist []string) (alive bool) {
 			held.reply <- nil
 		case "error":
 			held.reply <- errors.New("scripted token failure")
-		case "timeout":
+		case "timeout", "hang":
+			if e == "hang" {
+				w.hang.Store(true)
+			}
 			w.mu.Lock()
 			v := w.lastCtx
 			w.mu.Unlock()
